@@ -80,6 +80,18 @@ Section Lts.
                        | _ => []
                        end) cs.
 
+  (* an event observed on a goroutine the library spawned itself (no thread identity known):
+     any thread may have produced it *)
+  Definition fire_any (e : E) (cs : list config) : list config :=
+    flat_map (fun c => flat_map (fun t => fire t e [c]) (tids c)) cs.
+
+  Fixpoint accepts_anon_from (fuel : nat) (cs : list config) (tr : list (option nat * E)) : list config :=
+    match tr with
+    | [] => tau_closure fuel cs
+    | (Some t, e) :: r => accepts_anon_from fuel (fire t e (tau_closure fuel cs)) r
+    | (None, e) :: r => accepts_anon_from fuel (fire_any e (tau_closure fuel cs)) r
+    end.
+
   Fixpoint accepts_from (fuel : nat) (cs : list config) (tr : list (nat * E)) : bool :=
     match tr with
     | [] => match cs with [] => false | _ => true end
